@@ -28,6 +28,7 @@ RULES = {
     "R-path": "path/generic syntax adapted (turbofish, crate:: prefixes, trait-qualified calls) with no change of callee",
     "R-map": "`r.map(C)` / `r.map(|v| E)` on a Result desugared to `match r { Ok(v) => Ok(C(v)), Err(e) => Err(e) }` (the definition of Result::map); where the mapped callee is a gc allocation or trait-object call it is named by the env helper carrying its assumed contract",
     "R-arm": "a match arm of the interpreter loop wrapped as a function (signature from spec.toml: pattern variables become parameters, `self` becomes the context parameter); only the arm's own statements are verified, not the dispatch",
+    "R-block": "one block expression of a function (located by its header) wrapped as a function whose parameters are the block's free variables; only that block's statements are verified",
     "R-slice": "slice/Vec API call mapped to the env helper with the std semantics stated as its contract",
 }
 
@@ -65,7 +66,7 @@ def _extract_arm(arm):
     """Cut one arm out of a `match` inside a function: returns (raw arm expression text, line number)."""
     src = read(os.path.join(REPO, arm["file"]))
     try:
-        f = rustscan.find_fn(src, arm["fn"], within=arm.get("within"))
+        f = rustscan.find_fn(src, arm["fn"], within=arm.get("within"), nth=arm.get("nth", 0))
     except rustscan.ScanError as e:
         raise Broken("lost anchor %s in %s: %s" % (arm["fn"], arm["file"], e))
     masked = rustscan.mask(src)
@@ -104,6 +105,21 @@ def _extract_arm(arm):
     return body, line
 
 
+def _extract_block(blk):
+    """Cut one whole block expression (e.g. `match .. { .. }`) out of a function by its header regex."""
+    src = read(os.path.join(REPO, blk["file"]))
+    try:
+        f = rustscan.find_fn(src, blk["fn"], within=blk.get("within"), nth=blk.get("nth", 0))
+    except rustscan.ScanError as e:
+        raise Broken("lost anchor %s in %s: %s" % (blk["fn"], blk["file"], e))
+    masked = rustscan.mask(src)
+    try:
+        a, ob, cb = rustscan.find_block(src, masked, blk["header"], f.body_open, f.body_close)
+    except rustscan.ScanError:
+        raise Broken("block %r not found in %s::%s" % (blk["header"], blk["file"], blk["fn"]))
+    return src[a:cb + 1], src.count("\n", 0, a) + 1
+
+
 def _falsify(contract):
     """vacuity probe: add `false` to the postcondition; the function must then FAIL to verify, otherwise its
     precondition (or an assumed callee contract on its path) is contradictory."""
@@ -122,7 +138,8 @@ def assemble(unit, vacuity=False):
     blocks = {}      # into -> [text]
     order = []
     finfo = {}
-    items = [dict(x, _kind="fn") for x in spec.get("fn", [])] + [dict(x, _kind="arm") for x in spec.get("arm", [])]
+    items = ([dict(x, _kind="fn") for x in spec.get("fn", [])] + [dict(x, _kind="arm") for x in spec.get("arm", [])]
+             + [dict(x, _kind="block") for x in spec.get("block", [])])
     for fn in items:
         if fn["_kind"] == "arm":
             body_raw, line = _extract_arm(fn)
@@ -135,6 +152,15 @@ def assemble(unit, vacuity=False):
             if fn.get("tail"):
                 body_raw = "{ " + body_raw + "; " + fn["tail"] + " }"
             raw = fn["sig"] + " " + body_raw
+        elif fn["_kind"] == "block":
+            body_raw, line = _extract_block(fn)
+
+            class _F:
+                pass
+            f = _F()
+            f.line = line
+            fn = dict(fn, name="block " + fn["header"])
+            raw = fn["sig"] + " { " + body_raw + (("; " + fn["tail"]) if fn.get("tail") else "") + " }"
         else:
             src = read(os.path.join(REPO, fn["file"]))
             try:
